@@ -27,6 +27,9 @@ SPEC = {
         # the CONTENT of a snapshot written while the store is being edited (real goroutines, real time): op snaprace only
         {"name": "mutesrace", "pkg": "./mutesrace", "search_cases": 60, "timeout_quick": 300, "env": {"VERIF_MUTESRACE_OPS": "snaprace"},
          "only": ["snapshot_loads_one_state"]},
+        # "writing a snapshot and loading it back reproduces every … log entry with identical content", also after gossip merges
+        # replaced locally logged entries (C10's engine: two real logs, merges, restart through the real Maintenance loop)
+        {"name": "nflog", "pkg": "./nflog", "search_cases": 8000, "quick_cases": 1200, "only": ["reload_lossless", "data_preserved"]},
     ],
     "rule": "real nflog.Log and silence.Silences: (a) generated stores (0..200 records quick, ..5000 thorough; shapes mix/min/multi/big, "
             "contents through Merge and through the write APIs Log/Set) -> Snapshot or real Maintenance -> load through SnapshotReader/SnapshotFile "
